@@ -205,7 +205,7 @@ def run_scenario(scn):
         shutil.rmtree(d, ignore_errors=True)
 
 
-def gen_program(rnd, *, n=None, waiter_timeout=None, retry_delay=None, chain=False, post_wait_sleep=None, escalate=None):
+def gen_program(rnd, *, n=None, waiter_timeout=None, retry_delay=None, chain=False, post_wait_sleep=None, escalate=None, warmup=None):
     """wait-family program for the server: n items wait for Answer(key=v); optional waiter timeout; optional step that
     fails once and retries after `retry_delay`."""
     n = n or rnd.randint(1, 3)
@@ -240,6 +240,13 @@ def gen_program(rnd, *, n=None, waiter_timeout=None, retry_delay=None, chain=Fal
             steps.append({"name": f"flaky{i}", "in": ["EvA"], "nw": 1, "retry": {"wait": {"k": "fixed", "w": dly}, "stop": {"k": "attempt", "n": 3}},
                           "acts": [{"k": "sleep", "d": 0.25}, {"k": "fail", "n": 1, "exc": "E1"}, {"k": "ret", "type": "EvC"}]})
             total += 1
+    if warmup:
+        # a long history before the run goes quiet: a self-feeding chain of `warmup` quick hops (3 ticks each), so that the persisted
+        # tick log is longer than one page of whatever reads it back
+        steps[0]["acts"].insert(len(steps[0]["acts"]) - 1, {"k": "send", "type": "EvB", "items": [{"left": int(warmup)}]})
+        steps[0]["declare"].append("EvB")
+        steps.append({"name": "warm", "in": ["EvB"], "nw": 1, "acts": [{"k": "hop", "type": "EvB", "done": "EvC"}]})
+        total += 1
     steps.append({"name": "join", "in": ["EvC"], "nw": 1, "acts": [{"k": "collect", "types": ["EvC"] * total}, {"k": "ret", "type": "StopEvent", "result": "const"}]})
     keys = [f"r>start.0.{i}" for i in range(n)]
     return {"family": "idle", "steps": steps, "timeout": None, "externals": [], "meta": {"n": n, "keys": keys, "waiter_timeout": waiter_timeout, "retry_delay": retry_delay}}, keys
@@ -262,6 +269,11 @@ def idle_instant(spec, store_latency=None, stack="inproc", clock_latency=None):
         # a flaky step is retried after a delay: the run is not idle before its last attempt has ended (an idle announcement made
         # while its start event still sat in the mailbox is the known premature one, not the reference instant)
         ends = [b["t1"] for b in cs.tr.bodies() if b["step"].startswith("flaky") and b["t1"] is not None]
+        if ends:
+            t_all = max(t_all, max(ends))
+    if any(s_["name"] == "warm" for s_ in spec["steps"]):
+        # the warm-up chain is work like any other: the reference idle instant lies after its last hop (and the join's look at it)
+        ends = [b["t1"] for b in cs.tr.bodies() if b["step"] in ("warm", "join") and b["t1"] is not None]
         if ends:
             t_all = max(t_all, max(ends))
     later = [t for t in idles if t >= t_all - 1e-9]
